@@ -211,6 +211,23 @@ def model(tier):
     if not neg['violation']:
         raise common.MachineryError('negative control Sweep_Model(assign) not refuted')
     common.cleanup(work)
+    # the sweep RULE on the native 3-D toric lattice: every weight-1 Z error is
+    # cleared within the sweep budget whatever the tie-breaks (C09's guarantee)
+    cfgs = ['SweepToric3D_333.cfg'] + (['SweepToric3D_343.cfg', 'SweepToric3D_222.cfg']
+                                       if tier != 'quick' else [])
+    for cfg in cfgs:
+        r = common.run_tlc('SweepToric3D', cfg=cfg, workers=16, timeout=2000, heap='8g')
+        common.require_ok(r, cfg)
+        if r['violation']:
+            raise common.MachineryError(f'{cfg}: native sweep-rule model violated:\n'
+                                        + r['stdout'][-1200:])
+        ok['distinct'] += r['distinct']
+        ok['generated'] += r['generated']
+    if tier != 'quick':
+        r = common.run_tlc('SweepToric3D', cfg='SweepToric3D_neg.cfg', workers=16, timeout=2000, heap='8g')
+        common.require_ok(r, 'SweepToric3D_neg')
+        if not r['violation']:
+            raise common.MachineryError('negative control SweepToric3D(assign) not refuted')
     return ok
 
 
